@@ -140,6 +140,7 @@ def bootstrap() -> dict:
         "repo": str(REPO),
         "patched_datetime": patched,
         "globals_snapshot": snapshot_globals(),
+        "default_args": snapshot_default_args(),
     })
     return _STATE
 
@@ -195,10 +196,48 @@ def snapshot_globals() -> dict:
     return snap
 
 
+def snapshot_default_args() -> list:
+    """Mutable default argument values of every function and method defined in a dashlive module (the classic
+    `def f(x, acc=[])` keeps state in the function object, not in a module or class attribute)."""
+    import types
+    out = []
+    seen = set()
+
+    def visit(fn, label: str) -> None:
+        fn = getattr(fn, "__func__", fn)
+        if not isinstance(fn, types.FunctionType) or id(fn) in seen:
+            return
+        seen.add(id(fn))
+        for i, d in enumerate(fn.__defaults__ or ()):
+            if isinstance(d, (dict, list, set)):
+                out.append((label + f"#default{i}", d, type(d)(d)))
+        for k, d in (fn.__kwdefaults__ or {}).items():
+            if isinstance(d, (dict, list, set)):
+                out.append((label + f"#{k}", d, type(d)(d)))
+
+    for name, mod in sorted(sys.modules.items()):
+        if mod is None or not (name == "dashlive" or name.startswith("dashlive.")):
+            continue
+        for attr, val in list(vars(mod).items()):
+            if isinstance(val, type) and getattr(val, "__module__", None) == name:
+                for cattr, cval in list(vars(val).items()):
+                    visit(cval, f"{name}.{attr}.{cattr}")
+            elif getattr(val, "__module__", None) == name:
+                visit(val, f"{name}.{attr}")
+    return out
+
+
 def restore_globals(counter: dict | None = None) -> list[str]:
     """Put every snapshotted global back to its import-time value; returns the names that had changed."""
     snap = _STATE.get("globals_snapshot", {})
     changed: list[str] = []
+    for label, obj, orig in _STATE.get("default_args", []):
+        if obj != orig:
+            obj.clear()
+            (obj.extend if isinstance(obj, list) else obj.update)(type(orig)(orig))
+            changed.append(label)
+            if counter is not None:
+                counter[label] = counter.get(label, 0) + 1
     for (modname, clsname, attr), (kind, val) in snap.items():
         mod = sys.modules.get(modname)
         if mod is None:
